@@ -103,6 +103,11 @@ CHECKS = {
         "Read side: every byte string <= 4 (quick) / 6 (thorough) over {a ; \\n C3 A9 FF} x every composition into arrival chunks x {EOF, connection error} x 3 consumer schedules, plus a tiny-limit reader; successive reads must be exactly the newline-terminated lines decoded as UTF-8, anything else a TransportError. Write side: every schedule of pause/resume/connection-lost against 1-3 writes through a real StreamWriter; bytes at the peer = UTF-8 of the lines in call order. Life cycle: use before connect, five failing factory errors, failing close/wait_closed, both transport classes.",
         "asyncio streams are real; socket/serial port replaced by a fake asyncio.Transport via the factory seams the repo's tests patch.",
         "5/C17"),
+    "C18": ("E2", "exploration",
+        "bounded-exhaustive enumeration of (message, prefix, payload) through the real MQTT transport over a fake broker client, plus stateless exhaustive exploration of arrival/read/disconnect interleavings on a hand-driven loop",
+        "Mapping: field grid x 4 prefix pairs x 11 payloads (';' '/' '#' non-ASCII, empty): publish topic/payload/QoS at the abstract hook and at the broker client, every in-topic covered by a subscription, echo read back and decoded to the same message. Reception: every sequence of <= 3 (quick) / 4 (thorough) arrivals from {A, B, binary payload, broker error} interleaved in every order with the consumer's reads; disconnect after every prefix: arrival order, exactly once, no hanging read, no CancelledError, client closed, no task left.",
+        "aiomqtt.Client replaced at the seam the repo's tests patch; aiomqtt's real MessagesIterator/Message are used.",
+        "5/C18"),
     "C19": ("E1", "model_checking",
         "differential explicit-state BFS over the product of two real gateways (old, new protocol)",
         "8 version pairs; every internal/stream type of the older table x 3 payloads in 3-7 base states, and all histories to depth 4 (quick) / 6 (thorough) of lines and send calls; outcome, writes and registry must agree per step.",
